@@ -62,3 +62,14 @@ CHECKS['C15'] = dict(
          'work, coverage of every pitch-bearing token class (ChordToken missing: F11a) and participation of the accidental (F11b).',
     note='The arithmetic is C09 + C16. Not decided: grid equality on all documents. The three known findings are the classes the property text itself tracks.',
 )
+
+CHECKS['C12'] = dict(
+    category='other',
+    technique='must-reset-before-use path rule on the error collector (typestate), path counting in the failure handler of Importer.run, origin checks of the ErrorToken arguments, grammar start-rule anchoring',
+    text='Decides the mechanism clauses for every document: the error state that decides a cell is per-call (history independence), the '
+         'token-building listener is per-call, the failure handler builds exactly one ErrorToken(raw cell, row, message), records it once '
+         'and keeps it as the node token, ErrorToken stores and exports the cell verbatim, both ANTLR sinks collect and the parser bails '
+         'out. Whole-cell consumption (F3) is a known finding.',
+    note='Not decided: which texts the generated parser rejects, hence the exact error count. The ANTLR runtime is trusted to notify the '
+         'registered listener and to honour BailErrorStrategy.',
+)
